@@ -20,12 +20,12 @@ def run(ctx):
                        "enqueue, ack, drop full/expired-in-flight, register, unregister, terminated x 3 reasons, late packets of displaced connections}; "
                        "binding: seeded scenarios - mixed workloads (2-4 clients v3.1/v3.1.1/v5, all packet types of accepted connections, QoS 0/1/2 both "
                        "directions, manual acks, small windows, offline queueing, resume, take-over, clean start over a stored session, TerminateSession, abort), "
-                       "one family per drop reason (queue full offline / window-blocked, expired by configuration / by publisher, oversize, expired in flight), "
+                       "one family per drop reason (queue full with the subscriber offline / window-blocked / every copy in flight, expired by configuration / by publisher, oversize%s), "
                        "sessions ending while holding messages, client AUTH%s; every snapshot is compared field by field (global and every client id used); "
-                       "non-trivial = scenarios with >= 1 snapshot" % (6 if quick else 8, "" if quick else ", the 20 s session expiry sweep"))
+                       "non-trivial = scenarios with >= 1 snapshot" % (6 if quick else 8, "" if quick else ", expired in flight after the 30 s inflight_expiry", "" if quick else ", the 20 s session expiry sweep"))
     ctx.assumptions += [
         "hook events register/unregister/terminated/enqueue are logged under srv.mu (their order is the broker's order)",
-        "snapshots are taken after barrier + 50 ms settle; a mismatch that does not reproduce in slow mode (1 s settle) is counted as timing_unconfirmed",
+        "snapshots are taken after barrier + 80 ms settle; a mismatch that does not reproduce in slow mode (1 s settle) is counted as timing_unconfirmed",
         "connections end only right after a snapshot, so no byte written by the broker goes unread; no RETAIN (the retained replay enqueues without an enqueue event)",
         "QueuedCurrent is read as the number of copies held by the session queue (unread + in flight), InflightCurrent as the handed-out unacknowledged ones",
         "refused connections and broker-sent AUTH are not exercised (the wire driver cannot install an enhanced-auth hook); subscription statistics are not part of the property",
@@ -47,13 +47,16 @@ def run(ctx):
     for t in ths:
         t.start()
     # (2) binding (small targeted families first: the attribution passes stop at the first occurrence)
-    scs = stats_scen.all_packets(rng, sid)
+    scs = []
+    if not quick:
+        # real seconds: the 20 s session expiry sweep, the 30 s in-flight expiry (started first, they run alongside the rest)
+        scs += stats_scen.lifecycle(rng, sid + "x", 8, expiry_wait=True)
+        scs += stats_scen.drops(rng, sid + "i", 8, inflight_wait=True)
+    scs += stats_scen.all_packets(rng, sid)
     scs += stats_scen.auth(rng, sid, 3 if quick else 20)
     scs += stats_scen.lifecycle(rng, sid, 18 if quick else 240)
     scs += stats_scen.drops(rng, sid, 20 if quick else 300)
     scs += stats_scen.mixed(rng, sid, 36 if quick else 700)
-    if not quick:
-        scs += stats_scen.lifecycle(rng, sid + "x", 8, expiry_wait=True)
     rejected, stats = stats_lib.validate(ctx, scs, "c20", par=48 if quick else 64, jvms=3 if quick else 8)
     for t in ths:
         t.join()
